@@ -96,17 +96,57 @@ def gen_step_body(i, step, indent, live=False):
     return [indent + ln for ln in lines]
 
 
+def groups(case):
+    """-> list of lists of step indices: consecutive script steps carrying the same "grp" run in ONE body"""
+    out = []
+    for i, step in enumerate(case["steps"]):
+        if step["t"] != "s":
+            continue
+        g = step.get("grp")
+        if g is not None and out and case["steps"][out[-1][-1]].get("grp") == g and out[-1][-1] == i - 1:
+            out[-1].append(i)
+        else:
+            out.append([i])
+    return out
+
+
+def gen_group_body(case, idxs, indent, live=False):
+    """body executing the steps `idxs` one after the other; a group (len > 1 or "nest" given) also contains a nested
+    def / class / lambda / comprehension, or runs its statements inside a nested function"""
+    first = case["steps"][idxs[0]]
+    nest = first.get("nest")
+    body = []
+    for i in idxs:
+        if nest is not None:
+            body.append(f"pvsink.begin({i})")
+        body += gen_step_body(i, case["steps"][i], "", live=live)
+    if nest is None:
+        lines = body
+    elif nest == "def":
+        lines = ["def pv_helper(x):", "    return x + 1"] + body + ["pv_helper(1)"]
+    elif nest == "class":
+        lines = ["class PvInner:", "    pv_x = 1"] + body
+    elif nest == "lambda":
+        lines = ["pv_lam = lambda x: x + 1"] + body + ["pv_lam(1)"]
+    elif nest == "comp":
+        lines = ["pv_lst = [pv_k + 1 for pv_k in range(3)]"] + body + ["pv_set = {pv_k for pv_k in pv_lst}"]
+    elif nest == "inner":
+        lines = ["def pv_inner():", "    global s0, s1, s2"] + ["    " + ln for ln in body] + ["pv_inner()"]
+    else:
+        raise ValueError(nest)
+    return [indent + ln for ln in lines]
+
+
 def gen_file(case):
     lines = ["import vh.workers.c16_sink as pvsink", "s0 = None", "s1 = None", "s2 = None",
              f"{T.IDENT[T.GLOBAL_OBJ]} = pvsink.mkobj({', '.join(f'{T.IDENT[k]}={lit(v)}' for k, v in case.get('gobj', []))})", ""]
     if case["mode"] == "func":
         idx = []
-        for i, step in enumerate(case["steps"]):
-            if step["t"] != "s":
-                continue
+        for grp in groups(case):
+            i = grp[0]
             lines.append(f"def pv_f{i}():")
             lines.append("    global s0, s1, s2")
-            lines += gen_step_body(i, step, "    ")
+            lines += gen_group_body(case, grp, "    ")
             lines.append("")
             idx.append(i)
         lines.append("PV_STEPS = {" + ", ".join(f"{i}: pv_f{i}" for i in idx) + "}")
@@ -182,7 +222,17 @@ async def _run_steps(case, env, hass, clock):
             load_failed = repr([r for r in env.log.records if r[1] == "ERROR"][-1:])[:300]
         gst = gctx.global_sym_table if gctx is not None else {}
         out.append({"res": None, **observe(hass, gst)})   # initial state
+        sink.OBSERVER[0] = lambda: observe(hass, gst)
+        first_of = {g[0]: g for g in groups(case)}
+        member_of = {i: g for g in first_of.values() for i in g[1:]}
         for i, step in enumerate(case["steps"]):
+            if i in member_of:
+                # executed together with the first step of its group; the state was recorded when the step reported
+                g = member_of[i]
+                res = sink.RECORDS.get(i) or {"exc": "NoReport", "msg": "grouped step did not report"}
+                st_i = sink.STATE_AT.get(i) if i != g[-1] else None
+                out.append({"res": res, **(st_i or observe(hass, gst))})
+                continue
             clock.tick = i + 1
             if step["t"] == "x":
                 x = step["x"]
@@ -209,14 +259,15 @@ async def _run_steps(case, env, hass, clock):
             else:
                 a = AstEval(f"{CTX}.live{i}", gctx)
                 Function.install_ast_funcs(a)
-                a.parse("\n".join(gen_step_body(i, step, "", live=True)) + "\n")
+                a.parse("\n".join(gen_group_body(case, first_of[i], "", live=True)) + "\n")
                 await a.eval()
                 await env.settle()
             res = sink.RECORDS.get(i)
             if res is None:
                 errs = [r for r in env.log.records if r[1] in ("ERROR", "WARNING")][-2:]
                 res = {"exc": "NoReport", "msg": repr(errs)[:300]}
-            out.append({"res": res, **observe(hass, gst)})
+            st_i = sink.STATE_AT.get(i) if len(first_of[i]) > 1 else None
+            out.append({"res": res, **(st_i or observe(hass, gst))})
     return out
 
 
